@@ -4,7 +4,7 @@ from __future__ import annotations
 import ast
 
 from sa.callgraph import CallGraph
-from sa.cfg import CFG
+from sa.cfg import CFG, edges_establishing
 from sa.model import AnalysisError, Program, norm, walk_no_nested
 from sa.report import Results
 from sa.util import assignments_to, callee, dotted, exc_name, handler_names, strip_not
@@ -30,11 +30,17 @@ def run(prog: Program) -> Results:
     pf = prog.func("parse_file")
     fi = prog.func("Import._follow_import")
     gi = prog.func("Import.__getitem__")
-    ra = prog.func("Import._resolve_argument")
+    # the argument unwrapper is a private step of _follow_import: under another name (or inlined) its obligations are asked
+    # of whatever Import methods _follow_import reaches
+    ra = prog.funcs.get("Import._resolve_argument")
+    if ra is None:
+        inner = [prog.funcs[k] for k in sorted(cg.reachable(["Import._follow_import"], stop={"parse_file", "parse"}))
+                 if prog.funcs[k].cls == "Import" and k != "Import._follow_import"]
+        ra = inner[0] if len(inner) == 1 else fi
     rp = prog.func("NixPath.resolved_path")
     fc = prog.func("NixPath.from_cst")
     spc = prog.func("source_path_context")
-    chain = [pf, fi, gi, ra, rp, fc, spc]
+    chain = list({f.key: f for f in [pf, fi, gi, ra, rp, fc, spc]}.values())
     res.analysed_functions |= {f.key for f in chain}
 
     # ------------------------------------------------------------- R-C17-1 parse_file
@@ -220,52 +226,43 @@ def run(prog: Program) -> Results:
         if not okr:
             res.add("R-C17-3", ("NixPath.resolved_path", "join operand"), rp.loc(j),
                     f"the joined operand `{norm(right) if right is not None else ''}` is not the unmodified path literal")
-        # guard of the join: only `not X.is_absolute()` and `self.source_path is not None` may restrict it
+        # Stated on paths, not on the shape of the guard: a return is reached either through the join, or on an edge that
+        # establishes "the literal is absolute" or "there is no importing file" — nothing else may let the bare literal out
+        from sa.cfg import edges_establishing_any
         jn = cfg.containing(j)
-        guards = []
-        for t in cfg.nodes:
-            if t.kind != "test" or t in angle_tests:
-                continue
-            for lab in (True, False):
-                if cfg.all_paths_pass(jn, cut_edges=[(t, lab)]) and not cfg.all_paths_pass(jn, cut_edges=[(t, not lab)]):
-                    guards.append((t, lab))
-        for t, lab in guards:
-            conj = []
 
-            def flat(e):
-                if isinstance(e, ast.BoolOp) and isinstance(e.op, ast.And):
-                    for v in e.values:
-                        flat(v)
-                else:
-                    conj.append(e)
+        def abs_true(a, t):
+            return isinstance(a, ast.Call) and callee(a) == "is_absolute" and not a.args and t is True
 
-            flat(t.ast)
-            for cnd in conj:
-                inner, neg = strip_not(cnd)
-                allowed = False
-                if lab is True:
-                    if neg and isinstance(inner, ast.Call) and callee(inner) == "is_absolute" and not inner.args:
-                        allowed = True
-                    if not neg and isinstance(inner, ast.Compare) and dotted(inner.left) == "self.source_path" \
-                            and isinstance(inner.ops[0], ast.IsNot) and isinstance(inner.comparators[0], ast.Constant) \
-                            and inner.comparators[0].value is None:
-                        allowed = True
-                    if not neg and dotted(inner) == "self.source_path":
-                        allowed = True
-                r3.ob(allowed, {"join_guard": norm(cnd), "edge": lab})
-                if not allowed:
-                    res.add("R-C17-3", ("NixPath.resolved_path", "extra join condition", norm(cnd)), rp.loc(t.ast),
-                            f"the join to the importing file's directory is additionally conditioned on `{norm(cnd)}`: some "
-                            f"relative literals would resolve against the working directory")
-        # the returned value is the joined value on the guarded path: returns must return the variable assigned by the join
+        def no_source(a, t):
+            return (norm(a) == "self.source_path is None" and t is True) or (dotted(a) == "self.source_path" and t is False)
+
+        def has_source(a, t):
+            return (norm(a) == "self.source_path is not None" and t is True) or (dotted(a) == "self.source_path" and t is True)
+
+        e_plain = edges_establishing_any(cfg, [abs_true, no_source])
+        e_src = edges_establishing(cfg, has_source)
+        okj = bool(e_src) and cfg.all_paths_pass(jn, cut_edges=e_src)
+        r3.ob(okj, {"join": norm(j), "dominated_by": "self.source_path is not None"})
+        if not okj:
+            res.add("R-C17-3", ("NixPath.resolved_path", "join without an importing file"), rp.loc(j),
+                    "the join is reachable when self.source_path is None: `.parent` of None raises AttributeError instead of resolving")
         for rt in [n for n in cfg.nodes if n.kind == "return"]:
             v = rt.ast.value
-            okv = v is j or (isinstance(v, ast.Name) and any(isinstance(d, ast.Assign) and d.value is j
-                                                              for d in assignments_to(fn, v.id)))
+            joined = v is j or (isinstance(v, ast.Name) and any(isinstance(d, ast.Assign) and d.value is j for d in assignments_to(fn, v.id)))
+            plain = v is not None and literal_path(v)
+            okv = joined or plain
             r3.ob(okv, {"return": norm(rt.ast)})
             if not okv:
                 res.add("R-C17-3", ("NixPath.resolved_path", "return value", norm(rt.ast)), rp.loc(rt.ast),
-                        f"`{norm(rt.ast)}` does not return the variable that receives the join")
+                        f"`{norm(rt.ast)}` returns neither the join nor the path literal")
+                continue
+            ok = cfg.all_paths_pass(rt, cut_edges=e_plain, cut_nodes=[jn])
+            r3.ob(ok, {"return": norm(rt.ast), "reached_only": "through the join, or when the literal is absolute / no importing file"})
+            if not ok:
+                res.add("R-C17-3", ("NixPath.resolved_path", "extra join condition", norm(rt.ast)), rp.loc(rt.ast),
+                        f"`{norm(rt.ast)}` can be reached without the join although the literal is relative and an importing file is "
+                        f"known (the join is additionally conditioned): some relative literals would resolve against the working directory")
 
     # ------------------------------------------------------------- R-C17-4 _follow_import / __getitem__
     r4 = res.rule("R-C17-4", "_follow_import: non-path argument raises TypeError before anything else; parse_file receives "
@@ -289,7 +286,9 @@ def run(prog: Program) -> Results:
             res.add("R-C17-4", ("Import._follow_import", "parse_file argument"), fi.loc(pc),
                     f"parse_file receives `{norm(arg) if arg is not None else ''}`, not <argument>.resolved_path()")
         else:
-            var = arg.func.value.id
+            from sa.util import Aliases
+            al = Aliases(fn)
+            var = al.norm(arg.func.value)  # the argument under its first name (`target = unwrapped` copies are looked through)
             # isinstance(var, NixPath) false edge -> raise TypeError must cut every path to the call
             tests = []
             for t in cfg.nodes:
@@ -297,7 +296,7 @@ def run(prog: Program) -> Results:
                     continue
                 inner, neg = strip_not(t.ast)
                 if isinstance(inner, ast.Call) and callee(inner) == "isinstance" and len(inner.args) == 2 \
-                        and isinstance(inner.args[0], ast.Name) and inner.args[0].id == var and norm(inner.args[1]) == "NixPath":
+                        and isinstance(inner.args[0], ast.Name) and al.norm(inner.args[0]) == var and norm(inner.args[1]) == "NixPath":
                     tests.append((t, not neg))  # edge label on which var IS a NixPath
             pn = cfg.containing(pc)
             ok = bool(tests) and cfg.all_paths_pass(pn, cut_edges=[(t, lab) for t, lab in tests])
@@ -317,7 +316,11 @@ def run(prog: Program) -> Results:
     # _resolve_argument: None -> TypeError
     r4.instances += 1
     rr = [n for n in ast.walk(ra.node) if isinstance(n, ast.Raise)]
-    ok = bool(rr) and all(exc_name(n.exc) == "TypeError" for n in rr)
+    racfg = CFG(ra.node)
+    none_edges = edges_establishing(racfg, lambda a, t: norm(a) == "self.argument is None" and t is True)
+    guarded = [n for n in racfg.nodes if n.kind == "raise" and exc_name(n.ast.exc) == "TypeError" and none_edges
+               and racfg.all_paths_pass(n, cut_edges=none_edges)]
+    ok = bool(rr) and all(exc_name(n.exc) == "TypeError" for n in rr) and (bool(guarded) or ra.key == "Import._resolve_argument")
     r4.ob(ok, {"_resolve_argument": [norm(n) for n in rr]})
     if not ok:
         res.add("R-C17-4", ("Import._resolve_argument", "missing argument"), ra.loc(),
@@ -325,9 +328,11 @@ def run(prog: Program) -> Results:
     # __getitem__ delegates to the imported document
     r4.instances += 1
     rets = [n for n in ast.walk(gi.node) if isinstance(n, ast.Return)]
-    ok = len(rets) == 1 and isinstance(rets[0].value, ast.Subscript) and isinstance(rets[0].value.value, ast.Name) and all(
-        isinstance(d, ast.Assign) and isinstance(d.value, ast.Call) and dotted(d.value.func) == "self._follow_import"
-        for d in assignments_to(gi.node, rets[0].value.value.id)) and bool(assignments_to(gi.node, rets[0].value.value.id))
+    ok = len(rets) == 1 and isinstance(rets[0].value, ast.Subscript) and (
+        (isinstance(rets[0].value.value, ast.Call) and dotted(rets[0].value.value.func) == "self._follow_import") or
+        (isinstance(rets[0].value.value, ast.Name) and all(
+            isinstance(d, ast.Assign) and isinstance(d.value, ast.Call) and dotted(d.value.func) == "self._follow_import"
+            for d in assignments_to(gi.node, rets[0].value.value.id)) and bool(assignments_to(gi.node, rets[0].value.value.id))))
     r4.ob(ok, {"__getitem__": norm(rets[0]) if rets else None})
     if not ok:
         res.add("R-C17-4", ("Import.__getitem__", "delegation"), gi.loc(),
@@ -373,10 +378,10 @@ def run(prog: Program) -> Results:
     # ------------------------------------------------------------- R-C17-5 only a path *literal* is followed
     r5 = res.rule("R-C17-5", "the import argument is classified as written: between Import.__getitem__ and the NixPath test nothing "
                   "resolves names (no scope-chain lookup, no Identifier.value) — an identifier or any other non-literal argument "
-                  "reaches the test unchanged and raises TypeError", floor=2)
+                  "reaches the test unchanged and raises TypeError", floor=1)
     RESOLUTION = {"_resolve_identifier", "set_resolution_context", "attach_resolution_context", "scopes_for_owner", "Identifier.value",
                   "get_resolution_context", "_get_context", "function_call_scope"}
-    for root in ("Import._resolve_argument", "Import._follow_import"):
+    for root in dict.fromkeys((ra.key, "Import._follow_import")):
         if not prog.has_func(root):
             res.unclass(f"{root} vanished")
             continue
